@@ -433,6 +433,10 @@ class CacheEngineBase(Engine):
 
     def scenario(self, tier, idx):
         sc = {"focus": self.focus} if self.focus else {}
+        if not self.focus and self.prop == "C16" and idx % 5 == 4:
+            # a fifth of the runs concentrates on the narrowest window found so far: two same-size declarations,
+            # a mid-run edit to a third, colliding process identities, frequent deaths (this is where F8 was found)
+            sc["focus"] = "colliding-writers"
         every = 100 if tier == "quick" else 400
         if idx % every == every - 1:
             sc["fidelity"] = 1 + (idx // every) % 2        # 1: real process without bytecode caching, 2: with
